@@ -198,7 +198,7 @@ func realTag(key, msg []byte) []byte {
 }
 
 func gen(g *hx.Gen) {
-	n := g.Count(16000, 500000)
+	n := g.Count(16000, 300000)
 	r := g.R
 	for i := 0; i < n; i++ {
 		key := genKey(g)
